@@ -5,9 +5,13 @@ use serde_json::json;
 
 mod io_common;
 mod types;
+mod ops;
 mod c01;
+mod c02;
 mod c03;
+pub mod c04;
 mod c05;
+pub mod c06;
 mod c12;
 mod c14;
 mod c15;
@@ -102,8 +106,11 @@ fn main() {
     let r = Report::new(&id, tier);
     match id.as_str() {
         "C01" => c01::run(&r),
+        "C02" => c02::run(&r),
         "C03" => c03::run(&r),
+        "C04" => c04::run(&r),
         "C05" => c05::run(&r),
+        "C06" => c06::run(&r),
         "C12" => c12::run(&r),
         "C14" => c14::run(&r),
         "C15" => c15::run(&r),
